@@ -137,7 +137,7 @@ theorem select_zero_lookback_eq_find (pts : List (Int × V)) (h : IncTs pts) (t 
       rw [hs] at this
       cases this
 
-theorem filterMap_congr' {α β : Type} (l : List α) (f g : α → Option β) (h : ∀ x ∈ l, f x = g x) :
+theorem filterMap_congr_remote {α β : Type} (l : List α) (f g : α → Option β) (h : ∀ x ∈ l, f x = g x) :
     l.filterMap f = l.filterMap g := by
   induction l with
   | nil => rfl
@@ -152,7 +152,7 @@ theorem remote_read_is_spec (m : RMatrix V) (hw : ∀ s ∈ m, IncTs s.2) (t : I
     remoteRead 0 m t = remoteSpec m t := by
   unfold remoteRead remoteSpec remoteStorage
   rw [List.zipIdx_map, List.filterMap_map]
-  apply filterMap_congr'
+  apply filterMap_congr_remote
   intro si hsi
   have hm : si.1 ∈ m := by
     obtain ⟨s, i⟩ := si
